@@ -11,6 +11,8 @@ import (
 	"verif/props/c02"
 	"verif/props/c03"
 	"verif/props/c04"
+	"verif/props/c05"
+	"verif/props/c06"
 	"verif/props/c07"
 	"verif/props/c08"
 	"verif/props/c09"
@@ -34,6 +36,8 @@ var props = map[string]prop{
 	"C02": {"exploration", c02.Run},
 	"C03": {"exploration", c03.Run},
 	"C04": {"fault_enumeration", c04.Run},
+	"C05": {"exploration", c05.Run},
+	"C06": {"model_checking", c06.Run},
 	"C07": {"exploration", c07.Run},
 	"C08": {"exploration", c08.Run},
 	"C09": {"model_checking", c09.Run},
